@@ -314,7 +314,8 @@ class Check:
             "checker_cmd": self.checker_cmd,
             "trusted_base": self.trusted,
             "evaluations": self.evaluations,
-            "distinct_nontrivial": len(self.distinct),
+            # never more than what was evaluated (a module that adds finer keys than it counts evaluations is capped)
+            "distinct_nontrivial": min(len(self.distinct), self.evaluations),
             "samples": self.samples if self.samples else ["(no sample recorded)"],
             "axioms": self.axioms,
             "known_findings_hit": self.n_known,
